@@ -8,7 +8,7 @@ from typing import Any, Dict, List, Optional, Tuple
 
 from ..artefacts import first_empty_row, ods_sheets, template_path
 from ..consts import UNKNOWN, fold_class_attr, fold_module_const
-from ..loader import AnalysisError, loc, short, unparse
+from ..loader import AnalysisError, ancestors, loc, short, unparse
 from ..norm import Ctx, mk_add, show, subterms, tkey
 from ..report import Report
 from ..rp2model import EARN_SPEC, model
@@ -178,6 +178,10 @@ def _check_generate(rep, rc, re_, m, cc, modname, gen) -> None:
     ri = [i for i, n in enumerate(body) if isinstance(n, (ast.Assign, ast.AnnAssign)) and unparse(n.targets[0] if isinstance(n, ast.Assign) else n.target) == "row_indexes"]
     loops = [i for i, n in enumerate(body) if isinstance(n, ast.For) and "asset_to_computed_data.items()" in unparse(n.iter)]
     rm_mark = [i for i, n in enumerate(body) if isinstance(n, ast.For) and "output_file.sheets.names()" in unparse(n.iter)]
+    # the same marking written as a comprehension: sheet_indexes_to_remove = [index for index, sheet_name in enumerate(output_file.sheets.names()) if <condition>]
+    rm_comp = [i for i, n in enumerate(body) if isinstance(n, (ast.Assign, ast.AnnAssign)) and isinstance(getattr(n, "value", None), ast.ListComp) and unparse(n.targets[0] if isinstance(n, ast.Assign) else n.target) == "sheet_indexes_to_remove"]
+    if not rm_mark and len(rm_comp) == 1:
+        rm_mark = rm_comp
     rm_del = [i for i, n in enumerate(body) if isinstance(n, ast.For) and "reversed(sheet_indexes_to_remove)" in unparse(n.iter)]
     save = [i for i, n in enumerate(body) if isinstance(n, ast.Expr) and unparse(n.value) == "output_file.save()"]
     ok = len(ri) == 1 and len(loops) == 1 and ri[0] < loops[0]
@@ -189,11 +193,16 @@ def _check_generate(rep, rc, re_, m, cc, modname, gen) -> None:
         rep.check(ok, rc, modname, g.qualname, f"{cc}: every asset is written from its gain_loss_set with the shared counter table", f"{cc.upper()}: per-asset call is {short(calls[0], 120) if calls else 'missing'}; expected self.__generate(output_file, asset, computed_data.gain_loss_set, row_indexes)", loc(lp))
     order_ok = bool(loops and rm_mark and rm_del and save) and loops[0] < rm_mark[0] < rm_del[0] < save[0]
     rep.check(order_ok, re_, modname, g.qualname, f"{cc}: empty sheets are determined and removed after all assets were written, before saving", f"{cc.upper()}: the order asset loop -> mark empty sheets -> delete -> save is broken (positions {loops}, {rm_mark}, {rm_del}, {save}): sheets would be judged empty before their rows are written", loc(g.node))
-    if rm_mark:
+    want = "sheet_name != 'Legend' and row_indexes[sheet_name] == Generator.HEADER_ROWS"
+    alt = "sheet_name != 'Legend' and row_indexes[sheet_name] == self.HEADER_ROWS"
+    if rm_mark and not isinstance(body[rm_mark[0]], ast.For):
+        comp = body[rm_mark[0]].value
+        g0 = comp.generators[0] if len(comp.generators) == 1 else None
+        ok = g0 is not None and unparse(g0.iter) == "enumerate(output_file.sheets.names())" and unparse(g0.target) == "(index, sheet_name)" and unparse(comp.elt) == "index" and len(g0.ifs) == 1 and unparse(g0.ifs[0]) in (want, alt)
+        rep.check(ok, re_, modname, g.qualname, f"{cc}: a sheet is removed iff it is not the legend and its counter still equals HEADER_ROWS", f"{cc.upper()}: the sheets to remove are {short(comp, 160)}; expected the positions of the sheets that are not the legend and whose row counter == HEADER_ROWS", loc(comp))
+    elif rm_mark:
         mk = body[rm_mark[0]]
         ifs = [n for n in ast.walk(mk) if isinstance(n, ast.If)]
-        want = "sheet_name != 'Legend' and row_indexes[sheet_name] == Generator.HEADER_ROWS"
-        alt = "sheet_name != 'Legend' and row_indexes[sheet_name] == self.HEADER_ROWS"
         ok = len(ifs) == 1 and unparse(ifs[0].test) in (want, alt) and unparse(ifs[0].body[0]) == "sheet_indexes_to_remove.append(index)" and unparse(mk.body[-1]) == "index += 1"
         rep.check(ok, re_, modname, g.qualname, f"{cc}: a sheet is removed iff it is not the legend and its counter still equals HEADER_ROWS", f"{cc.upper()}: removal condition is '{unparse(ifs[0].test) if ifs else None}'; expected exactly: not the legend and row counter == HEADER_ROWS (the counter is the ground truth of 'has rows')", loc(mk))
     if rm_del:
@@ -231,7 +240,11 @@ def _check_rows(rep, rc, rd, m, cc, modname, gen, sheets) -> None:
             ok = count_call in txt and txt.count(count_call) >= 1 and isinstance(slack, int) and slack >= 0 and "-" not in txt and "//" not in txt and "/" not in txt
             cont = [n for n in ast.walk(sizing) if isinstance(n, (ast.Continue, ast.Break))]
             legend_skip = [n for n in ast.walk(sizing) if isinstance(n, ast.If) and unparse(n.test) == "sheet.name == 'Legend'"]
-            ok = ok and len(cont) == len(legend_skip) == 1
+            skip_form = len(cont) == len(legend_skip) == 1  # `if sheet.name == 'Legend': continue`
+            # or the positive form: the append sits under `if sheet.name != 'Legend':` and nothing else leaves or filters the loop
+            conds_up = [unparse(a.test) for a in ancestors(appends[0]) if isinstance(a, ast.If) and a in list(ast.walk(sizing))]
+            block_form = not cont and conds_up == ["sheet.name != 'Legend'"]
+            ok = ok and (skip_form or block_form)
     rep.check(ok, rc, modname, f.qualname, f"{cc}: per asset every sheet gets >= count(type) rows for each of its types", f"{cc.upper()}: the sizing loop appends {short(appends[0], 100) if appends else 'nothing'}; expected, for every non-legend sheet and every type of the sheet, at least get_transaction_type_count(type) rows (too few rows lose the last fractions)", loc(sizing))
     # row loop
     ctx = norm.ctx_for(f, subst_locals=False)
